@@ -28,3 +28,7 @@ CHECKS["C13"] = {"level": "model_checking", "design_ref": "DESIGN.md section 5 /
   "technique": "TLA+ transformation group (ReprTrace!ApplyG) applied by TLC to the logged base input to validate the harness's transformed executions; solutions related by TLC (bags of canonical rings / covers); Fill algebra lemmas model-checked",
   "text": "For every base input TLC recomputes each transformed input from the generator list (so the executions compared are exactly those the specification names) and decides the relation between the recorded solutions: identical canonical ring bags for representation changes, swap and reversal (with Positive/Negative exchanged on odd orientation parity), identical cover at mapped clear sample points for translate/transpose/mirror/scale, and the Xor/Difference algebra on observed covers. Bounded exploration (sampled bases and compositions up to length 4).",
   "note": TRUST}
+CHECKS["C05"] = {"level": "model_checking", "design_ref": "DESIGN.md section 5 / C05",
+  "technique": "trace validation by TLC (OpenTrace.tla): exact windings at sample points on the open subjects + Fill!KeepOpen decide kept/dropped; integer-sqrt length brackets; closed solution with vs without open subjects",
+  "text": "For every recorded Execute with open subjects TLC decides, at 9 sample points per open segment that are clear of closed edges, whether the point must be in the open solution, that every solution vertex/midpoint lies on an open subject, that the total length is within 3 units per cut of the exact kept length (bracketed), and that the closed region is unchanged by the open subjects; inputs are random general-position closed sets with 1-3 open polylines, all clip types x fill rules x paths/tree on two builds.",
+  "note": TRUST}
